@@ -1056,40 +1056,55 @@ Proof.
   destruct (N.ltb_spec k0 (N.of_nat (length asg))); [lia|]. congruence.
 Qed.
 
-Definition LInv (a : ast) (post : list event) (l : lst) : Prop :=
-  forall X g, In g (emitted X post) -> is_seq X (g_ty g) = true ->
-              lookup (e_asg (getE X a)) (getL X l) (g_seq g) = Some (cont g).
+Definition LInv (a : ast) (l : lst) : Prop :=
+  forall X g, In g (l_chk (getL X l)) -> is_seq X (g_ty g) = true ->
+              lookup (e_asg (getE X a)) (l_tab (getL X l)) (g_seq g) = Some (cont g).
+(* what is covered: every sequenced emission after Close except closeSessionRequests *)
+Definition LCov (post : list event) (l : lst) : Prop :=
+  forall X g, In g (emitted X post) -> is_seq X (g_ty g) = true -> g_ty g <> ty_close_req -> In g (l_chk (getL X l)).
 
 Lemma getL_setL_same : forall X v l, getL X (setL X v l) = v.
 Proof. destruct X; reflexivity. Qed.
 Lemma getL_setL_other : forall X v l, getL (negb X) (setL X v l) = getL (negb X) l.
 Proof. destruct X; reflexivity. Qed.
 
-Lemma late_step_inv : forall a post l e l', LInv a post l -> late_step a l e = Some l' -> LInv a (post ++ [e]) l'.
+Lemma late_step_inv : forall a post l e l', LInv a l /\ LCov post l -> late_step a l e = Some l' ->
+  LInv a l' /\ LCov (post ++ [e]) l'.
 Proof.
-  intros a post l e l' HI H.
-  assert (Hframe : forall e0, (forall Y, ev_emit Y e0 = []) -> LInv a (post ++ [e0]) l).
-  { intros e0 He Y g Hg. rewrite emitted_snoc_other in Hg by apply He. apply HI. exact Hg. }
+  intros a post l e l' [HI HC] H.
+  assert (Hframe : forall e0, (forall Y, ev_emit Y e0 = []) -> LInv a l /\ LCov (post ++ [e0]) l).
+  { intros e0 He. split; [exact HI|]. intros Y g Hg. rewrite emitted_snoc_other in Hg by apply He. apply HC. exact Hg. }
   destruct e as [S b | S g | S k | S b | ]; cbn [late_step] in H;
     try (injection H as <-; apply Hframe; intros Y; reflexivity).
+  assert (HCo : forall l2, getL (negb S) l2 = getL (negb S) l ->
+                (forall g0, In g0 (l_chk (getL S l)) -> In g0 (l_chk (getL S l2))) ->
+                (is_seq S (g_ty g) = true -> g_ty g <> ty_close_req -> In g (l_chk (getL S l2))) -> LCov (post ++ [ES S g]) l2).
+  { intros l2 E1 E2 E3 Y g0 Hg0 Hs0 Hn0. destruct (side_cases Y S) as [-> | ->].
+    - rewrite snd_emit_common in Hg0. apply in_app_or in Hg0. destruct Hg0 as [Hg0 | [<- | []]]; [apply E2; apply HC; assumption | apply E3; assumption].
+    - rewrite E1. rewrite emitted_snoc_other in Hg0 by (cbn; rewrite eqb_negb; reflexivity). apply HC; assumption. }
   destruct (is_seq S (g_ty g)) eqn:Hseq.
-  - destruct (lookup (e_asg (getE S a)) (getL S l) (g_seq g)) as [c|] eqn:Hl.
-    + destruct (content_eqb c (cont g)) eqn:Hc; [|discriminate]. apply content_eqb_eq in Hc. subst c. injection H as <-.
-      intros Y g0 Hg0 Hs0. destruct (side_cases Y S) as [-> | ->].
-      * rewrite snd_emit_common in Hg0. apply in_app_or in Hg0. destruct Hg0 as [Hg0 | [<- | []]]; [apply HI; assumption | exact Hl].
-      * rewrite emitted_snoc_other in Hg0 by (cbn; rewrite eqb_negb; reflexivity). apply HI; assumption.
-    + injection H as <-. intros Y g0 Hg0 Hs0. destruct (side_cases Y S) as [-> | ->].
-      * rewrite getL_setL_same. rewrite snd_emit_common in Hg0. apply in_app_or in Hg0. destruct Hg0 as [Hg0 | [<- | []]].
-        -- eapply lookup_keep; [exact Hl | apply HI; assumption].
-        -- apply lookup_fresh. exact Hl.
-      * rewrite getL_setL_other. rewrite emitted_snoc_other in Hg0 by (cbn; rewrite eqb_negb; reflexivity). apply HI; assumption.
-  - destruct (is_ack S (g_ty g)); [|discriminate]. injection H as <-.
-    intros Y g0 Hg0 Hs0. destruct (side_cases Y S) as [-> | ->].
-    + rewrite snd_emit_common in Hg0. apply in_app_or in Hg0. destruct Hg0 as [Hg0 | [<- | []]]; [apply HI; assumption | congruence].
-    + rewrite emitted_snoc_other in Hg0 by (cbn; rewrite eqb_negb; reflexivity). apply HI; assumption.
+  - destruct (l_flag (getL S l) && N.eqb (g_ty g) ty_close_req) eqn:Hex.
+    + injection H as <-. split; [exact HI|]. apply HCo; auto.
+      intros _ Hne. apply andb_true_iff in Hex. destruct Hex as [_ Hex]. apply N.eqb_eq in Hex. contradiction.
+    + destruct (lookup (e_asg (getE S a)) (l_tab (getL S l)) (g_seq g)) as [c|] eqn:Hl.
+      * destruct (content_eqb c (cont g)) eqn:Hc; [|discriminate]. apply content_eqb_eq in Hc. subst c. injection H as <-. split.
+        -- intros Y g0 Hg0 Hs0. destruct (side_cases Y S) as [-> | ->].
+           ++ rewrite getL_setL_same in *. cbn [l_tab l_chk] in *. destruct Hg0 as [<- | Hg0]; [exact Hl | apply HI; assumption].
+           ++ rewrite getL_setL_other in *. apply HI; assumption.
+        -- apply HCo; [apply getL_setL_other | rewrite getL_setL_same; cbn; auto | rewrite getL_setL_same; cbn; auto].
+      * injection H as <-. split.
+        -- intros Y g0 Hg0 Hs0. destruct (side_cases Y S) as [-> | ->].
+           ++ rewrite getL_setL_same in *. cbn [l_tab l_chk] in *. destruct Hg0 as [<- | Hg0].
+              ** apply lookup_fresh. exact Hl.
+              ** eapply lookup_keep; [exact Hl | apply HI; assumption].
+           ++ rewrite getL_setL_other in *. apply HI; assumption.
+        -- apply HCo; [apply getL_setL_other | rewrite getL_setL_same; cbn; auto | rewrite getL_setL_same; cbn; auto].
+  - destruct (is_ack S (g_ty g)); [|discriminate]. injection H as <-. split; [exact HI|].
+    apply HCo; auto. intros Hc. discriminate.
 Qed.
 
-Lemma late_run_inv : forall a post2 post1 l l', LInv a post1 l -> late_run a l post2 = Some l' -> LInv a (post1 ++ post2) l'.
+Lemma late_run_inv : forall a post2 post1 l l', LInv a l /\ LCov post1 l -> late_run a l post2 = Some l' ->
+  LInv a l' /\ LCov (post1 ++ post2) l'.
 Proof.
   intros a. induction post2 as [|e t IH]; intros post1 l l' HI H; cbn [late_run] in H.
   - injection H as <-. rewrite app_nil_r. exact HI.
@@ -1098,25 +1113,35 @@ Proof.
     eapply IH; [|exact H]. eapply late_step_inv; eauto.
 Qed.
 
-(* one sequence number, one content - for every sequenced segment (data and control), before and after Close *)
-Lemma accept_closed_retx_same : forall pre post, accept_closed pre post = true ->
-  forall X g1 g2, In g1 (emitted X (pre ++ post)) -> In g2 (emitted X (pre ++ post)) ->
+(* one sequence number, one content - for every sequenced segment (data and control) emitted before Close and every
+   checked one emitted after it; checked = all of them except the stateless closeSessionRequest replies that follow
+   an endpoint's own close segment (late_covers: in particular every data segment, open/close response and each
+   endpoint's first close segment) *)
+Lemma accept_closed_retx_same : forall pre post l, late_final pre post = Some l ->
+  forall X g1 g2, In g1 (emitted X pre ++ l_chk (getL X l)) -> In g2 (emitted X pre ++ l_chk (getL X l)) ->
   is_seq X (g_ty g1) = true -> is_seq X (g_ty g2) = true -> g_seq g1 = g_seq g2 ->
   g_ty g1 = g_ty g2 /\ g_frag g1 = g_frag g2 /\ g_pay g1 = g_pay g2.
 Proof.
-  intros pre post H X g1 g2 H1 H2 Q1 Q2 E. unfold accept_closed in H.
+  intros pre post l H X g1 g2 H1 H2 Q1 Q2 E. unfold late_final in H.
   destruct (accept pre) as [a | r] eqn:Ea; [|discriminate].
-  destruct (late_run a l0 post) as [l|] eqn:El; [|discriminate].
-  assert (HL : LInv a post l).
-  { apply (late_run_inv a post [] l0 l); [|exact El]. intros Y g Hg. contradiction. }
+  destruct (late_run_inv a post [] l0 l) as [HL _]; [|exact H|].
+  { split; [intros Y g Hg; destruct Y; contradiction | intros Y g Hg; contradiction]. }
   apply accept_inv in Ea. destruct Ea as [_ HS]. destruct (HS X) as [(_ & _ & S3 & _) _].
-  assert (Hb : forall g, In g (emitted X (pre ++ post)) -> is_seq X (g_ty g) = true ->
-                         lookup (e_asg (getE X a)) (getL X l) (g_seq g) = Some (cont g)).
-  { intros g Hg Hs. rewrite emitted_app in Hg. apply in_app_or in Hg. destruct Hg as [Hg | Hg].
+  assert (Hb : forall g, In g (emitted X pre ++ l_chk (getL X l)) -> is_seq X (g_ty g) = true ->
+                         lookup (e_asg (getE X a)) (l_tab (getL X l)) (g_seq g) = Some (cont g)).
+  { intros g Hg Hs. apply in_app_or in Hg. destruct Hg as [Hg | Hg].
     - apply lookup_asg. apply S3; assumption.
     - apply HL; assumption. }
   pose proof (Hb _ H1 Q1) as N1. pose proof (Hb _ H2 Q2) as N2. rewrite E in N1. rewrite N1 in N2.
   unfold cont in N2. injection N2 as -> -> ->. auto.
+Qed.
+
+Lemma late_covers : forall pre post l, late_final pre post = Some l ->
+  forall X g, In g (emitted X post) -> is_seq X (g_ty g) = true -> g_ty g <> ty_close_req -> In g (l_chk (getL X l)).
+Proof.
+  intros pre post l H. unfold late_final in H. destruct (accept pre) as [a | r]; [|discriminate].
+  destruct (late_run_inv a post [] l0 l) as [_ HC]; [|exact H|exact HC].
+  split; [intros Y g Hg; destruct Y; contradiction | intros Y g Hg; contradiction].
 Qed.
 
 (* C13 for the LTS, spelled out for control segments: the close session request (like every sequenced segment)
@@ -1248,6 +1273,52 @@ Proof.
     split; [econstructor; [exact W1|]; econstructor; [exact W2 | exact R]|]. split; [cbn; lia | exact N].
 Qed.
 
+(* ------------------------------------------------------------------ Part 1c: inputData never blocks *)
+
+Lemma capN_pos : 0 < capN.
+Proof. unfold capN, C02_segmentTreeCapacity. apply Nat.ltb_lt. vm_compute. reflexivity. Qed.
+Opaque capN.
+
+(* for EVERY receiver state and every arriving segment: inputData drops or accepts, it never waits for the
+   application (no invariant is needed: the window test itself guarantees a free slot in recvQueue) *)
+Lemma input_never_blocks : forall r d, snd (input_data r d) <> InBlocked.
+Proof.
+  intros r d. unfold input_data, input_body, rwindow.
+  destruct (Nat.eqb_spec (capN - length (r_buf r) - r_queue r) 0) as [E | E]; [cbn; discriminate|].
+  destruct (Nat.leb_spec capN (length (r_buf r))); [cbn; discriminate|].
+  cbn [r_queue]. destruct (Nat.leb_spec capN (r_queue r)); [lia | cbn; discriminate].
+Qed.
+
+(* a full receive window (recvBuf + recvQueue hold capacity segments) makes the receiver DROP the segment, state unchanged *)
+Lemma input_full_window_drops : forall r d, capN <= length (r_buf r) + r_queue r -> input_data r d = (r, InDropped).
+Proof.
+  intros r d H. unfold input_data, rwindow. replace (capN - length (r_buf r) - r_queue r) with 0 by lia. reflexivity.
+Qed.
+
+(* while an accepted segment leaves recvBuf and recvQueue within their capacity *)
+Lemma move_loop_queue : forall fuel r, r_queue r <= capN -> r_queue (move_loop fuel r) <= capN.
+Proof.
+  induction fuel as [|f IH]; intros r H; cbn [move_loop]; [exact H|].
+  destruct (Nat.leb_spec capN (r_queue r)); [exact H|].
+  destruct (take (r_next r) (r_buf r)) as [[c rb']|]; [apply IH; cbn [r_queue]; lia | cbn [r_queue]; lia].
+Qed.
+Lemma input_queue_bounded : forall r d, r_queue r <= capN -> r_queue (fst (input_data r d)) <= capN.
+Proof.
+  intros r d H. unfold input_data, input_body. destruct (Nat.eqb (rwindow r) 0); [exact H|].
+  destruct (Nat.leb capN (length (r_buf r))); [exact H|]. cbn [r_queue].
+  destruct (Nat.leb capN (r_queue r)); [exact H|]. cbn [fst]. apply move_loop_queue. exact H.
+Qed.
+
+(* the window test is what makes it so: without it there is a state (recvQueue full because the application does
+   not read, recvBuf empty) in which the next segment makes the input loop wait for the application *)
+Lemma input_nocheck_blocks : exists r d, r_queue r <= capN /\ snd (input_data_nocheck r d) = InBlocked.
+Proof.
+  exists (mkR capN [] capN), (capN, mkC 6 0 [1%N]). split; [cbn [r_queue]; lia|].
+  unfold input_data_nocheck, input_body. cbn [r_buf r_queue length].
+  pose proof capN_pos.
+  destruct (Nat.leb_spec capN 0); [lia|]. rewrite Nat.leb_refl. reflexivity.
+Qed.
+
 (* ------------------------------------------------------------------ non-vacuity *)
 
 (* a reachable LTS state with a loss, a duplicate, reordering and a read *)
@@ -1333,7 +1404,8 @@ Definition ex_pre : list event :=
 Lemma ex_closed :
   accept_closed ex_pre [ES false (mkDg 6 1 0 4096 0 [7]%N); ES false (mkDg 4 2 0 0 0 []); ES true (mkDg 5 1 0 0 0 []); ES true (mkDg 4 2 0 0 0 [])] = true /\
   accept_closed ex_pre [ES false (mkDg 4 1 0 0 0 [])] = false /\
-  accept_closed ex_pre [ES false (mkDg 6 2 0 4096 0 [8]%N); ES false (mkDg 4 2 0 0 0 [])] = false.
+  accept_closed ex_pre [ES false (mkDg 6 2 0 4096 0 [8]%N); ES false (mkDg 4 2 0 0 0 [])] = false /\
+  accept_closed ex_pre [ES false (mkDg 4 2 0 0 0 []); ES false (mkDg 4 1 0 0 0 [])] = true.
 Proof. vm_compute. repeat split; reflexivity. Qed.
 Lemma ex_wreach : exists s, wreach s /\ next_recv (base s) < length (assigned (base s)) /\ rwnd s = 0 /\ win (base s) = 0 /\ 0 < rspace s.
 Proof.
